@@ -515,7 +515,11 @@ func (x *Exec) abstractCallF(st *State, fr *Frame, c *callCtx, name string, sig 
 				as = append(as, TV{nil, sig.Results().At(i).Type()})
 			}
 		}
-		st.rec = append(append([]recordedCall(nil), st.rec...), recordedCall{Name: name, Args: as, Results: results})
+		recName := name
+		if i := strings.Index(recName, "["); i > 0 {
+			recName = recName[:i] // an instance of a generic function is recorded under the generic's name
+		}
+		st.rec = append(append([]recordedCall(nil), st.rec...), recordedCall{Name: recName, Args: as, Results: results})
 		x.finish(st, fr, c, v)
 		return true
 	}
